@@ -1,5 +1,5 @@
 //! C07 — quoted strings survive printing and parsing unchanged.
-use crate::*;
+use qvh::*;
 use quil_rs::expression::Expression;
 use quil_rs::instruction::{
     AttributeValue, Delay, FrameAttributes, FrameDefinition, FrameIdentifier, Include, Instruction, Pragma, Pulse,
@@ -114,7 +114,11 @@ fn pos_case(ctx: &mut Ctx, pos: &'static str, s: &str) {
     });
 }
 
-pub fn run(ctx: &mut Ctx) {
+fn main() {
+    main_with(run)
+}
+
+fn run(ctx: &mut Ctx) {
     let (lex_len, quote_len, pos_len, n_random) = if ctx.quick() { (4, 4, 3, 4000) } else { (6, 6, 5, 200_000) };
 
     // 1. the string lexer on arbitrary text that starts with a quote (and a few that do not)
